@@ -1798,38 +1798,49 @@ func requiredLandmarkAlternativeMatch(input []rune, start, endAt int, alt syntax
 		return requiredLandmarkMatch{}, false
 	}
 
-	var end int
+	// The core may end anywhere in [minEnd, maxEnd]: a set repetition is free
+	// to stop at any count from MinRepeat up to as far as the set keeps matching.
+	var minEnd, maxEnd int
 	if len(alt.Literal) > 0 {
 		if start+len(alt.Literal) > endAt || !helpers.StartsWith(input[start:], alt.Literal) {
 			return requiredLandmarkMatch{}, false
 		}
-		end = start + len(alt.Literal)
+		minEnd = start + len(alt.Literal)
+		maxEnd = minEnd
 	} else if alt.Set != nil && alt.MinRepeat > 0 {
-		end = start
+		maxEnd = start
 		maxRepeat := alt.MaxRepeat
 		if maxRepeat <= 0 {
 			maxRepeat = alt.MinRepeat
 		}
-		for end < endAt && end-start < maxRepeat && alt.Set.CharIn(input[end]) {
-			end++
+		for maxEnd < endAt && maxEnd-start < maxRepeat && alt.Set.CharIn(input[maxEnd]) {
+			maxEnd++
 		}
-		if end-start < alt.MinRepeat {
+		if maxEnd-start < alt.MinRepeat {
 			return requiredLandmarkMatch{}, false
 		}
+		minEnd = start + alt.MinRepeat
 	} else {
 		return requiredLandmarkMatch{}, false
 	}
 
-	if alt.RequireWhitespaceAfter &&
-		(end >= endAt || alt.TrailingWhitespaceSet == nil || !alt.TrailingWhitespaceSet.CharIn(input[end])) {
-		return requiredLandmarkMatch{}, false
+	if alt.RequireWhitespaceAfter {
+		found := false
+		for end := minEnd; end <= maxEnd && end < endAt && !found; end++ {
+			found = alt.TrailingWhitespaceSet != nil && alt.TrailingWhitespaceSet.CharIn(input[end])
+		}
+		if !found {
+			return requiredLandmarkMatch{}, false
+		}
 	}
 
 	matchStart := start
 	for matchStart > 0 && alt.LeadingWhitespaceSet != nil && alt.LeadingWhitespaceSet.CharIn(input[matchStart-1]) {
 		matchStart--
 	}
-	return requiredLandmarkMatch{Start: matchStart, CoreStart: start, End: end}, true
+	// End is the earliest position at which the text after this landmark can
+	// begin; the next landmark of the chain is searched from there.
+	return requiredLandmarkMatch{Start: matchStart, CoreStart: start, End: minEnd}, true
 }
 
 func indexOfLiteralAfterLoop(r *Runner, literal *syntax.LiteralAfterLoop, searchStart int) int {
